@@ -220,7 +220,7 @@ class EnsembleLayout(E2Contract):
     name = "StateEnsemble layout"
     prop = "C16"
     targets = ("quara.objects.state_ensemble:StateEnsemble.state", "quara.objects.operators:_compose_qoperations_MProcess_StateEnsemble",
-               "quara.objects.operators:_compose_qoperations_MProcess_State")
+               "quara.objects.operators:_compose_qoperations_MProcess_State", "quara.objects.operators:_compose_qoperations_Povm_MProcess")
     frame = False
     max_paths = 16
     n_conformance = 1
@@ -267,6 +267,11 @@ class EnsembleLayout(E2Contract):
         out["povm_joint"] = [jd[i + (y,)] for i in idxs for y in range(2)]
         out["povm_joint_shape"] = list(jd.shape)
         out["povm_marginal"] = list(jd.marginalize(list(range(len(cfg)))).ps)
+        if len(cfg) == 1:
+            # the POVM composed with the measurement process FIRST (a composite POVM), then measured on the state: same joint, same layout
+            cp = ops.compose_qoperations(inp["pv"], inp["mps"][0])
+            out["composite_povm_ps"] = list(ops.compose_qoperations(cp, inp["st"]).ps.flatten())
+            out["composite_povm_num_outcomes"] = len(cp.vecs)
         if len(cfg) > 1:
             # the same measurements composed into ONE measurement process (multi-index outcome shape) first, then applied to the state
             mp_all = inp["mps"][0]
@@ -295,6 +300,10 @@ class EnsembleLayout(E2Contract):
                   "joint[(x.., y)] == P(x..) * P(y | x..) == Tr(E_y branch operator of x..)"),
                eq("povm-on-ensemble/marginal==ensemble-distribution", out["povm_marginal"], [ref[i][0] for i in idxs],
                   "summing out the POVM outcome gives back the ensemble's distribution, outcome by outcome")]
+        if "composite_povm_ps" in out:
+            cl += [eq("composite-povm/outcome-count", out["composite_povm_num_outcomes"], cfg[0] * 2, "POVM o measurement process is a POVM with (process outcomes) x (POVM outcomes) elements"),
+                   eq("composite-povm/joint-row-major", out["composite_povm_ps"], [inp["joint"][i + (y,)] for i in idxs for y in range(2)],
+                      "its elements are laid out row-major as (process outcome, POVM outcome): the same joint as measuring the POVM on the ensemble")]
         if "joint_shape" in out:
             cl += [eq("joint-process/shape", out["joint_shape"], list(cfg), "a multi-outcome measurement process applied to a state keeps its outcome shape"),
                    eq("joint-process/probabilities", out["joint_p_tuple"], [ref[i][0] for i in idxs], "and addresses the same probabilities by tuple"),
